@@ -106,7 +106,7 @@ fn abort_key(s: &str) -> String {
 
 pub fn run_one(prop: &str, seed: u64, i: u64, skip_fast: bool) -> (Case, RunOut) {
     let mut rng = Rng::for_run(seed, scenario_id(prop), i);
-    let (mut case, profile) = generate(prop, &mut rng, skip_fast);
+    let (mut case, profile) = generate(prop, &mut rng, skip_fast, i);
     let out = execute(prop, &mut case, Source::Prng(&mut rng, profile));
     (case, out)
 }
@@ -123,6 +123,7 @@ fn worker(cfg: &BatchCfg, next: &AtomicU64, end: u64, skip_pass: bool, finds: &M
             if skip_fast_for(cfg, i) != skip_pass {
                 continue;
             }
+            crate::sink::set_current_run(cfg.seed, i);
             let (case, out) = run_one(prop, cfg.seed, i, skip_pass);
             st.evaluations += 1;
             st.calls += out.calls as u64;
@@ -220,9 +221,9 @@ pub fn minimise(prop: &str, oracle: &str, case: &Case, budget: usize) -> (Case, 
                     if plain != *o {
                         v.push(wrap(plain.clone()));
                     }
-                    if o.cap != 1 << 14 || o.query {
+                    if o.cap != Offer::large().cap || o.query {
                         let mut l = o.clone();
-                        l.cap = 1 << 14;
+                        l.cap = Offer::large().cap;
                         l.query = false;
                         v.push(wrap(l));
                     }
